@@ -70,10 +70,14 @@ class Fn:
     def __init__(self, name, sig, body):
         self.name, self.sig = name, sig
         self.blocks, self.locals = {}, {}
+        self.debug = {}          # source-level variable name -> MIR local (first binding wins)
         self.nargs = len(split_top(sig)) if sig.strip() else 0
         cur = None
         for line in body.split('\n'):
             s = line.strip()
+            m = re.match(r'debug (\w+) => (_\d+);$', s)
+            if m:
+                self.debug.setdefault(m.group(1), m.group(2)); continue
             m = re.match(r'let (?:mut )?(_\d+): (.*);$', s)
             if m:
                 self.locals[m.group(1)] = m.group(2); continue
@@ -88,10 +92,74 @@ class Fn:
             if m: self.locals[m.group(1)] = m.group(2)
 
 
+def fn_succ(fn):
+    """successor map of the (non-cleanup) CFG, read off each block's terminator"""
+    succ = {}
+    for bb, sts in fn.blocks.items():
+        term = sts[-1] if sts else ''
+        t = re.sub(r'unwind: bb\d+', '', term)
+        succ[bb] = [x for x in dict.fromkeys(re.findall(r'bb\d+', t.split(' -> ', 1)[1] if ' -> ' in t else ''))]
+    return succ
+
+
+def fn_loops(fn):
+    """loop headers (targets of DFS back edges from bb0) in order of first visit, with their body blocks"""
+    succ = fn_succ(fn)
+    heads, order, state, backs = [], [], {}, []
+    stack = [('bb0', iter(succ.get('bb0', [])))]
+    state['bb0'] = 1; order.append('bb0')
+    while stack:
+        bb, it = stack[-1]
+        nxt = next(it, None)
+        if nxt is None:
+            state[bb] = 2; stack.pop(); continue
+        if state.get(nxt) == 1:
+            backs.append((bb, nxt))
+            if nxt not in heads: heads.append(nxt)
+        elif nxt not in state:
+            state[nxt] = 1; order.append(nxt); stack.append((nxt, iter(succ.get(nxt, []))))
+    heads.sort(key=order.index)
+    pred = {}
+    for a, bs in succ.items():
+        for b in bs: pred.setdefault(b, []).append(a)
+    out = []
+    for h in heads:
+        # natural loop body: blocks that reach a back edge source without passing through h
+        body = {h}
+        work = [a for a, hh in backs if hh == h]
+        while work:
+            x = work.pop()
+            if x in body: continue
+            body.add(x); work.extend(pred.get(x, []))
+        out.append((h, body))
+    return out
+
+
+def _reaches(succ, src, dst):
+    seen, work = set(), [src]
+    while work:
+        x = work.pop()
+        if x == dst: return True
+        if x in seen: continue
+        seen.add(x); work.extend(succ.get(x, []))
+    return False
+
+
+def assigned_locals(fn, blocks):
+    out = set()
+    for bb in blocks:
+        for st in fn.blocks[bb]:
+            m = re.match(r'^\(?\*?\(?(_\d+)\b[^=]*? = ', st)
+            if m: out.add(m.group(1))
+            for m in re.finditer(r'&mut (_\d+)\b', st): out.add(m.group(1))
+    return out
+
+
 class Mir:
     def __init__(self, path):
         self.path = path
         txt = open(path).read()
+        self.txt = txt
         self.fns, self.consts = {}, {}
         for m in re.finditer(r'^const ([^\n]*?): (\w+) = const (-?\d+)_\w+;$', txt, re.M):
             self.consts[m.group(1).strip()] = (int(m.group(3)), m.group(2))
@@ -220,10 +288,52 @@ class Panic:
     def __repr__(s): return f'Panic({s.msg})'
 class Unit:
     def __repr__(s): return 'Unit'
+class Cut:
+    """execution reached a cut point (loop header) of the top-level function: carries the frame"""
+    def __init__(s, bb, frame): s.bb, s.frame = bb, frame
+    def __repr__(s): return f'Cut({s.bb})'
 
 
-VAR_ORDER = {'Continue': 0, 'Break': 1, 'Ok': 0, 'Err': 1, 'None': 0, 'Some': 1, 'Valid': 0, 'ExceedsMax': 1,
-             'Static': 0, 'Adaptive': 1}
+VAR_ORDER = {'Continue': 0, 'Break': 1, 'Ok': 0, 'Err': 1, 'None': 0, 'Some': 1, 'Valid': 0, 'ExceedsMax': 1}
+STRUCT_VARIANTS = set()
+
+
+def _load_source_enums():
+    """variant -> discriminant index for the crate's own enums, read from the current source (declaration order);
+    a variant name declared with different indexes in two enums is left out (ambiguous)"""
+    seen = {}
+    root = os.path.join(REPO, 'programs/whirlpool/src')
+    for dp, _, fs in os.walk(root):
+        for f in fs:
+            if not f.endswith('.rs'): continue
+            try: txt = open(os.path.join(dp, f)).read()
+            except Exception: continue
+            for m in re.finditer(r'\benum\s+(\w+)\s*\{', txt):
+                i = m.end(); depth = 1; j = i
+                while j < len(txt) and depth:
+                    if txt[j] == '{': depth += 1
+                    elif txt[j] == '}': depth -= 1
+                    j += 1
+                body = txt[i:j - 1]
+                body = re.sub(r'//[^\n]*', '', body)
+                # strip nested braces / parens / attributes
+                flat, d = '', 0
+                for ch in body:
+                    if ch in '{(': d += 1; flat += ('{' if d == 1 and ch == '{' else '')
+                    elif ch in '})': d -= 1
+                    elif d == 0: flat += ch
+                flat = re.sub(r'#\[[^\]]*\]', '', flat)
+                idx = 0
+                for part in flat.split(','):
+                    part = part.strip()
+                    if not part: continue
+                    mm = re.match(r'(\w+)(\{)?', part)
+                    if not mm: continue
+                    seen.setdefault(mm.group(1), set()).add(idx)
+                    if mm.group(2): STRUCT_VARIANTS.add(mm.group(1))
+                    idx += 1
+    for k, v in seen.items():
+        if len(v) == 1 and k not in VAR_ORDER: VAR_ORDER[k] = next(iter(v))
 
 
 def const_int(v, ty): return I(C(v), ty)
@@ -241,6 +351,8 @@ class BoundExceeded(Exception):
 class Engine:
     def __init__(self, mir, prune_ms=3000, max_steps=20000):
         self.mir = mir
+        if not STRUCT_VARIANTS and 'AmountDeltaU64' not in VAR_ORDER:
+            _load_source_enums(); VAR_ORDER.setdefault('AmountDeltaU64', -1)
         self.summaries = []      # list of (regex, handler(engine, callee, args, path) -> generator)
         self.models = default_models()
         self.prune_ms = prune_ms
@@ -249,6 +361,7 @@ class Engine:
         self.executed = set()
         self.max_steps = max_steps
         self.havoc_log = []
+        self.cuts = set()        # (function name, block) cut points: reaching one ends the segment with a Cut value
         import z3
         self.z3 = z3
         self._zcache = {}
@@ -574,6 +687,9 @@ class Engine:
             nm = m.group(1).strip()
             if nm.endswith('U256Muldiv') and 'items' in d:
                 raise NotImplementedError('raw U256Muldiv aggregate')
+            last = re.sub(r'<.*>$', '', nm).split('::')[-1]
+            if (last in STRUCT_VARIANTS or last in ('Static', 'Adaptive')) and '::' in nm:      # enum struct-variant: fields are addressed by index after `as Variant`
+                return E(last, list(d.values()))
             return S(d)
         m = re.match(r'^(.*)::(\w+)(?:\((.*)\))?$', rv, re.S)
         if m:
@@ -594,16 +710,24 @@ class Engine:
         for i, a in enumerate(args): fr.loc[f'_{i + 1}'] = a
         yield from self.run_block(fr, 'bb0', path, 0)
 
+    def run_from(self, fr, bb, path):
+        """continue a frame at block `bb` (segment execution between cut points)"""
+        yield from self.run_block(fr, bb, path, 0, entry=True)
+
     def clone(self, fr):
         f2 = Frame(fr.fn); f2.loc = dict(fr.loc)
         for k, v in f2.loc.items():
             if isinstance(v, Ref) and v.frame is fr: f2.loc[k] = Ref(f2, v.place)
         return f2
 
-    def run_block(self, fr, bb, path, steps):
+    def run_block(self, fr, bb, path, steps, entry=False):
         while True:
             steps += 1
             if steps > self.max_steps: raise BoundExceeded(fr.fn.name)
+            if self.cuts and not entry and (fr.fn.name, bb) in self.cuts:
+                self.stats['paths'] += 1
+                yield (path, Cut(bb, fr)); return
+            entry = False
             jumped = False
             for st in fr.fn.blocks[bb]:
                 st = st.rstrip(';')
